@@ -59,7 +59,7 @@ func (f *FlattenMangler) Mangle(sf reflect.StructField) ([]reflect.StructField, 
 	}
 
 	// get the underlying element kind and type
-	k, t := getUnderlyingKindType(sf.Type)
+	k, t := nestedKindType(sf.Type)
 
 	out := []reflect.StructField{}
 	fieldPath := []string{sf.Name}
@@ -130,7 +130,7 @@ func (f *FlattenMangler) flattenStruct(fieldPrefix, tagPrefix, fieldPath []strin
 
 		// get the underlying type after removing pointer for each member
 		// of the struct. Ignoring type
-		nestedK, nestedT := getUnderlyingKindType(nestedsf.Type)
+		nestedK, nestedT := nestedKindType(nestedsf.Type)
 		switch nestedK {
 		case reflect.Struct:
 			// don't flatten if struct implements TextUnmarshaler
@@ -236,7 +236,7 @@ func populateStruct(originalVal reflect.Value, vs []FieldValueTuple, inputIndex 
 		return inputIndex, false, fmt.Errorf("error unmangling %s. Need addressable type, actual %q", originalVal, originalVal.Type().Kind())
 	}
 
-	kind, vt := getUnderlyingKindType(originalVal.Type())
+	kind, vt := nestedKindType(originalVal.Type())
 
 	anyChildSet := false
 	switch kind {
@@ -255,7 +255,7 @@ func populateStruct(originalVal reflect.Value, vs []FieldValueTuple, inputIndex 
 		for i := 0; i < val.NumField(); i++ {
 			nestedVal := val.Field(i)
 			// remove pointers to get the underlying kind. Ignoring the type
-			kind, t := getUnderlyingKindType(nestedVal.Type())
+			kind, t := nestedKindType(nestedVal.Type())
 
 			switch kind {
 			case reflect.Struct:
@@ -304,6 +304,16 @@ func populateStruct(originalVal reflect.Value, vs []FieldValueTuple, inputIndex 
 // ShouldRecurse returns false because Mangle walks through nested structs and doesn't need Transform's recursion
 func (f *FlattenMangler) ShouldRecurse(reflect.StructField) bool {
 	return false
+}
+
+// nestedKindType strips at most ONE pointer level: Pointerify adds (or keeps)
+// exactly one pointer in front of a nested struct, and treats a field with
+// more levels (**Sub) as a leaf, so the flattener must as well.
+func nestedKindType(t reflect.Type) (reflect.Kind, reflect.Type) {
+	if t.Kind() == reflect.Ptr {
+		t = t.Elem()
+	}
+	return t.Kind(), t
 }
 
 // getUnderlyingKindType strips the pointer from the type to determine the underlying kind
